@@ -127,6 +127,8 @@ def _minimise(item, r):
                 continue
             k = _tkey(v["key"])
             cands = []
+            if item.get("cfg") and not enall:
+                cands.append(cand(None, suffix.split("%cfg:")[0]))  # neither the layout deviation nor the configuration deviation is needed
             if enall:
                 style_sfx = suffix[: -len(ENALL)]
                 cands.append(cand(None, style_sfx))
